@@ -67,6 +67,12 @@ Definition epoch_ok (c : ctl) (rid id : Z) : Prop :=
 Definition adm (c c' : ctl) : Prop :=
   forall rid id, In (rid, id) (running c') -> In (rid, id) (running c) \/ epoch_ok c rid id.
 
+(* every record is truthful: it names an existing operator of that region together with the end status that
+   operator has (GetOperatorStatus of a region without running operator reports exactly this) *)
+Definition Rec (c : ctl) : Prop :=
+  forall rid id st, alist_get (records c) rid = Some (id, st) ->
+    exists o, get_op c id = Some o /\ o_st o = st /\ is_end_status st = true /\ o_rid o = rid.
+
 Record Frame (c c' : ctl) : Prop := {
   fr_cache : cache c' = cache c;
   fr_truth : truth c' = truth c;
@@ -74,7 +80,8 @@ Record Frame (c c' : ctl) : Prop := {
   fr_fwd : ops_fwd c c';
   fr_bwd : ops_bwd c c';
   fr_rinv : RInv c -> RInv c';
-  fr_adm : adm c c'
+  fr_adm : adm c c';
+  fr_rec : Rec c -> Rec c'
 }.
 
 Lemma Frame_refl c : Frame c c.
@@ -108,16 +115,18 @@ Proof.
   - intros rid id H. destruct (fr_adm _ _ G _ _ H) as [H1|H1].
     + apply (fr_adm _ _ F _ _ H1).
     + right. eapply epoch_ok_bwd; eauto.
+  - intros H. apply (fr_rec _ _ G), (fr_rec _ _ F), H.
 Qed.
 
 (* updates that leave the operator table alone *)
 Lemma frame_same_ops c c' :
-  cache c' = cache c -> truth c' = truth c -> max_waiting c' = max_waiting c -> ops c' = ops c ->
+  cache c' = cache c -> truth c' = truth c -> max_waiting c' = max_waiting c -> ops c' = ops c -> records c' = records c ->
   (RInv c -> RInv c') -> adm c c' -> Frame c c'.
 Proof.
-  intros H1 H2 H3 H4 H5 H6. constructor; auto.
+  intros H1 H2 H3 H4 H7 H5 H6. constructor; auto.
   - intros id x Hx. exists x. unfold get_op in *. rewrite H4. auto using rel_refl.
   - intros id x Hx. exists x. unfold get_op in *. rewrite <- H4. auto using rel_refl.
+  - intros R rid id st Hr. rewrite H7 in Hr. destruct (R _ _ _ Hr) as (o & Ho & Hrest). exists o. unfold get_op in *. rewrite H4. auto.
 Qed.
 
 Lemma adm_same c c' : running c' = running c -> adm c c'.
@@ -147,6 +156,15 @@ Proof.
     apply Z.eqb_eq in E. pose proof (get_op_id _ _ _ Hx) as I. rewrite <- I, E, Ho in Hx. inversion Hx; subst. exact R.
   - auto.
   - apply adm_same. reflexivity.
+  - intros Rc rid id st Hr. change (records (set_op c o')) with (records c) in Hr.
+    destruct (Rc _ _ _ Hr) as (x & Hx & Hst & Hend & Hrid).
+    rewrite G, Hx. cbn [option_map]. eexists. split; [reflexivity|].
+    destruct (o_id x =? o_id o') eqn:E; [|auto].
+    apply Z.eqb_eq in E. pose proof (get_op_id _ _ _ Hx) as I. rewrite <- I, E, Ho in Hx. inversion Hx; subst x.
+    destruct R as (_ & R2 & _ & _ & _ & _ & _ & _ & R9).
+    assert (Hend' : is_end_status (o_st o) = true) by (rewrite Hst; exact Hend).
+    pose proof (reach_from_end _ _ Hend' R9) as Est.
+    split; [congruence|]. split; [exact Hend|congruence].
 Qed.
 
 Lemma frame_send c ms : Frame c (send c ms).
@@ -176,14 +194,51 @@ Proof.
   destruct R as (R1 & _). rewrite R1, (get_op_id _ _ _ Ho). exact Ho.
 Qed.
 
+Lemma alist_get_set {A} (l : list (Z * A)) k v k' : alist_get (alist_set l k v) k' = if k =? k' then Some v else alist_get l k'.
+Proof.
+  unfold alist_get, alist_set. cbn [find fst]. destruct (k =? k') eqn:E; [reflexivity|].
+  unfold alist_del. induction l as [|x r IH]; cbn [filter find]; [reflexivity|].
+  destruct (fst x =? k) eqn:E2; cbn [negb].
+  - apply Z.eqb_eq in E2. rewrite E2, E. exact IH.
+  - cbn [find]. destruct (fst x =? k'); [reflexivity|exact IH].
+Qed.
+
+Lemma not_end_cancel s : is_end_status s = false -> valid_trans s CANCELED = true.
+Proof. destruct s; vm_compute; intros H; try reflexivity; discriminate. Qed.
+
+Lemma op_to_end_cancel o : is_end_status (o_st (fst (op_to o CANCELED))) = true.
+Proof.
+  destruct (is_end_status (o_st o)) eqn:E.
+  - destruct (op_to_status o CANCELED) as [H|[_ H]]; rewrite H; [exact E|reflexivity].
+  - unfold op_to. rewrite (not_end_cancel _ E). reflexivity.
+Qed.
+
+(* writing the record of an ended operator *)
+Lemma frame_record c o : get_op c (o_id o) = Some o -> is_end_status (o_st o) = true ->
+  Frame c (upd c (truth c) (cache c) (ops c) (running c) (waiting c) (wcount c)
+               (alist_set (records c) (o_rid o) (o_id o, o_st o)) (inbox c)).
+Proof.
+  intros Ho He. constructor; try reflexivity.
+  - intros id x Hx. exists x. split; [exact Hx|apply rel_refl].
+  - intros id x Hx. exists x. split; [exact Hx|apply rel_refl].
+  - auto.
+  - apply adm_same. reflexivity.
+  - intros Rc rid id st Hr. cbn [records upd] in Hr. rewrite alist_get_set in Hr.
+    destruct (o_rid o =? rid) eqn:E.
+    + apply Z.eqb_eq in E. inversion Hr; subst id st. exists o. repeat split; auto.
+    + destruct (Rc _ _ _ Hr) as (x & Hx & Hrest). exists x. split; [exact Hx|exact Hrest].
+Qed.
+
 Lemma frame_bury c id : Frame c (bury c id).
 Proof.
   unfold bury. destruct (get_op c id) as [o|] eqn:Ho; [|apply Frame_refl].
   set (o' := if op_is_end o then o else fst (op_to o CANCELED)).
   assert (R : rel o o') by (unfold o'; destruct (op_is_end o); [apply rel_refl|apply rel_op_to]).
+  assert (He : is_end_status (o_st o') = true) by (unfold o'; destruct (op_is_end o) eqn:E; [exact E|apply op_to_end_cancel]).
+  assert (Hid : o_id o' = id) by (destruct R as (R1 & _); rewrite R1; eapply get_op_id; eauto).
   eapply Frame_trans.
-  - apply frame_op_update with (id := id) (o := o); [exact Ho|exact R].
-  - apply frame_same_ops; auto. apply adm_same; reflexivity.
+  - apply frame_set_op with (o := o); [rewrite Hid; exact Ho|exact R].
+  - apply (frame_record (set_op c o') o'); [|exact He]. apply get_set_op_same with (o := o). rewrite Hid. exact Ho.
 Qed.
 
 Lemma frame_cancel c id : Frame c (cancel c id).
@@ -518,3 +573,40 @@ Lemma admitted_epoch_equal_pf c e rid id :
   In (rid, id) (running (fst (ctl_step c e))) ->
   In (rid, id) (running c) \/ epoch_ok (fst (ctl_step c e)) rid id.
 Proof. apply (ctl_step_ok c e). Qed.
+
+(* ---------- records ---------- *)
+Lemma Rec_same c c' : ops c' = ops c -> records c' = records c -> Rec c -> Rec c'.
+Proof.
+  intros H1 H2 R rid id st Hr. rewrite H2 in Hr. destruct (R _ _ _ Hr) as (o & Ho & Hrest). exists o. unfold get_op in *. rewrite H1. auto.
+Qed.
+
+Lemma ctl_step_rec c e : Rec c -> Rec (fst (ctl_step c e)).
+Proof.
+  intros R. destruct e; cbn [ctl_step].
+  - cbn [fst]. destruct (is_some (get_op c id)); [exact R|].
+    intros r i st Hr. destruct (R _ _ _ Hr) as (o & Ho & Hrest). exists o. split; [|exact Hrest].
+    unfold get_op, set_ops, upd in *; cbn. apply get_op_app. exact Ho.
+  - pose proof (frame_add_operator c ids) as F. destruct (add_operator c ids) as [c' ok]. cbn [fst] in *. apply (fr_rec _ _ F R).
+  - pose proof (frame_add_waiting c ids) as F. destruct (add_waiting c ids) as [c' n]. cbn [fst] in *. apply (fr_rec _ _ F R).
+  - cbn [fst]. apply (fr_rec _ _ (frame_promote c) R).
+  - destruct (alist_get (truth c) rid) as [r|]; cbn [fst]; [|exact R].
+    apply (fr_rec _ _ (frame_dispatch _ rid r true)). eapply Rec_same; [| |exact R]; reflexivity.
+  - destruct (alist_get (cache c) rid) as [r|]; cbn [fst]; [|exact R]. apply (fr_rec _ _ (frame_dispatch c rid r false) R).
+  - pose proof (frame_remove_operator c id) as F. destruct (remove_operator c id) as [c' ok]. cbn [fst] in *. apply (fr_rec _ _ F R).
+  - destruct (first_for rid (inbox c)) as [m|]; [|exact R]. destruct (alist_get (truth c) rid) as [r|]; [|exact R].
+    destruct (deliver r m) as [r' d]. cbn [fst]. eapply Rec_same; [| |exact R]; reflexivity.
+  - cbn [fst]. eapply Rec_same; [| |exact R]; reflexivity.
+  - destruct (alist_get (truth c) rid) as [r|]; [|exact R]. destruct (apply_cmd r c0); cbn [fst]; [eapply Rec_same; [| |exact R]; reflexivity|exact R].
+  - cbn [fst]. destruct (get_op c id) as [o|] eqn:Ho; [|exact R].
+    apply (fr_rec _ _ (frame_op_update c id o _ Ho (rel_with_flags o true (o_slow o))) R).
+  - cbn [fst]. destruct (get_op c id) as [o|] eqn:Ho; [|exact R].
+    apply (fr_rec _ _ (frame_op_update c id o _ Ho (rel_with_flags o (o_old o) true)) R).
+  - cbn [fst]. eapply Rec_same; [| |exact R]; reflexivity.
+Qed.
+
+Lemma records_truthful_pf maxw es : Rec (run_state ctl_step (init maxw) es).
+Proof.
+  assert (G : forall es c, Rec c -> Rec (run_state ctl_step c es)).
+  { induction es0 as [|e r IH]; intros c H; cbn [run_state]; [exact H|]. apply IH, ctl_step_rec, H. }
+  apply G. intros rid id st H. discriminate.
+Qed.
